@@ -4,6 +4,7 @@ pub struct PathS { pub id: int }
 impl PathS { pub fn as_ref(&self) -> (r: &PathS) ensures *r == *self { self } }
 #[derive(Clone, Copy, PartialEq, Eq, Structural)]
 pub struct Duration { pub ns: int }
+impl Duration { #[verifier::external_body] pub fn is_zero(&self) -> (r: bool) ensures r == (self.ns == 0) { unimplemented!() } }
 pub enum RecursiveMode { Recursive, NonRecursive }
 pub struct NotifyError { pub paths: Vec<PathS> }       // notify::Error: the paths it names (kind and message not modelled)
 pub struct StrS;
@@ -105,13 +106,19 @@ impl Watcher {
     pub fn default() -> Watcher { unimplemented!() }
 }
 pub struct CreateRes { pub r: Result<WatcherS, CriticalError> }
-impl Watcher {
-    // Watcher::create (notify::RecommendedWatcher / PollWatcher construction): a fresh watcher of this kind with nothing registered
+// notify::RecommendedWatcher::new(f, Config::default()) / notify::PollWatcher::new(f, Config::default().with_poll_interval(delay)) (replaced by exact
+// token match): a fresh watcher of that back end with nothing registered, or an error
+pub struct NewRes { pub r: Result<WatcherS, NotifyError> }
+#[verifier::external_body]
+pub fn vx_native_watcher(f: Callback) -> (r: NewRes) ensures r.r is Ok ==> r.r->Ok_0.kind == Watcher::Native && r.r->Ok_0.registered@ =~= Map::<PathS, bool>::empty() { unimplemented!() }
+#[verifier::external_body]
+pub fn vx_poll_watcher(f: Callback, delay: Duration) -> (r: NewRes) ensures r.r is Ok ==> r.r->Ok_0.kind == Watcher::Poll(delay) && r.r->Ok_0.registered@ =~= Map::<PathS, bool>::empty() { unimplemented!() }
+impl NewRes {
+    // .map_err(|err| CriticalError::FsWatcherInit { kind, err: <classification of the notify error> }): the classification is not decided
     #[verifier::external_body]
-    pub fn create(self, f: Callback) -> (r: CreateRes)
-        ensures r.r is Ok ==> r.r->Ok_0.kind == self && r.r->Ok_0.registered@ =~= Map::<PathS, bool>::empty(),
-    { unimplemented!() }
+    pub fn vx_init_err(self, kind: Watcher) -> (r: Result<WatcherS, CriticalError>) ensures self.r is Ok ==> r == Ok::<WatcherS, CriticalError>(self.r->Ok_0), self.r is Err ==> r is Err { unimplemented!() }
 }
+// (Watcher::create is an item of the unit: extracted and proved)
 impl CreateRes {
     // Result::map(Some)
     pub fn vx_map_some(self) -> (o: Result<Option<WatcherS>, CriticalError>)
